@@ -47,6 +47,7 @@ CONSTANTS K,          \* transactions per block
           EnsureTx,   \* BOOLEAN: transactions that call Ensure() in Prepare allowed
           ImplWR,     \* "required" | "code" (world read lock, see above)
           CancelOn,   \* BOOLEAN: the transition may be cancelled
+          InitVals,   \* values an account may have before the block: 0 = the account does not exist yet, 9 = it exists
           RetryCount, \* service.RetryCount (2)
           MaxOps      \* 0: exhaustive checker (history keeps the last call only), n > 0: generator
 
@@ -71,9 +72,10 @@ VARIABLES prog,       \* descriptor per dispatched transaction (chosen when it i
           rcpt,       \* receipt slot filled
           result,     \* "run" | "ok" | "err" | "cancelled" (nothing is reported)
           cancelled,  \* the canceler has been called
+          init,       \* Acc -> value before the block
           hist
 vars == <<prog, real, disp, dpc, las, wlock, wsnap, wbase, sysdep, ph, pc, att, saved, lastAL, lastWL, roCache,
-          latch, rcpt, result, cancelled, hist>>
+          latch, rcpt, result, cancelled, init, hist>>
 
 Ops == {"r", "w"} \X Acc
 OpSeqs == UNION {[1..n -> Ops] : n \in 0..MaxLen}
@@ -81,17 +83,21 @@ Locks == [Acc -> {"N", "R", "W"}]
 NoLocks == [a \in Acc |-> "N"]
 \* a program only touches what it declared: reads need a read or write lock, writes a write lock
 ValidProg(p) ==
-  /\ p.world = "W" => (p.lock = NoLocks /\ ~p.ens)
+  /\ p.world = "W" => (p.lock = NoLocks /\ ~p.twice)       \* (Ensure under the world write lock resolves nothing: patchHandler)
+  /\ p.twice => \E a \in Acc : p.lock[a] = "W"              \* twice: every write lock is requested as read lock first, then as
+                                                              \* write lock (CallHandler names From and To, which may be equal):
+                                                              \* applyLockRequests keeps the stronger one
   \* under the world read lock account read locks are subsumed; writes still need a write lock
   /\ p.world = "R" => (~p.ens /\ \A a \in Acc : p.lock[a] # "R") /\
                        \A i \in 1..Len(p.ops) : p.ops[i][1] = "w" => p.lock[p.ops[i][2]] = "W"
   /\ p.world = "N" => \A i \in 1..Len(p.ops) :
         LET o == p.ops[i] IN IF o[1] = "w" THEN p.lock[o[2]] = "W" ELSE p.lock[o[2]] # "N"
-Progs == {p \in [world : {"N"} \cup WorldTx, ens : IF EnsureTx THEN BOOLEAN ELSE {FALSE}, lock : Locks, ops : OpSeqs,
+Progs == {p \in [world : {"N"} \cup WorldTx, ens : IF EnsureTx THEN BOOLEAN ELSE {FALSE},
+                 twice : IF EnsureTx THEN BOOLEAN ELSE {FALSE}, lock : Locks, ops : OpSeqs,
                  fate : Fates] : ValidProg(p)}
 
 NoLas == [lock |-> "N", dep |-> 0, kind |-> "none", val |-> 0]
-NoProg == [world |-> "N", ens |-> FALSE, lock |-> NoLocks, ops |-> <<>>, fate |-> "ok"]
+NoProg == [world |-> "N", ens |-> FALSE, twice |-> FALSE, lock |-> NoLocks, ops |-> <<>>, fate |-> "ok"]
 Running == {t \in Tx : ph[t] \in {"spawned", "exec", "done"}}
 Failures == Cardinality({t \in 1..disp : prog[t].fate # "ok"})
 
@@ -100,10 +106,13 @@ WritesBefore(t, a, upto) == \E j \in 1..upto : prog[t].ops[j] = <<"w", a>>
 RECURSIVE SeqVal(_, _, _)
 \* value of account a just before operation i+1 of transaction t when the block is executed one by one
 SeqVal(t, i, a) ==
-  IF t = 0 THEN 0
+  IF t = 0 THEN init[a]
   ELSE IF WritesBefore(t, a, i) THEN t
   ELSE SeqVal(t - 1, IF t - 1 = 0 THEN 0 ELSE Len(prog[t-1].ops), a)
-Fails(t) == prog[t].fate \in {"fatal", "retryx"}
+\* fates: "nohandler" GetHandler fails (both executors), "noprep" Prepare fails (only the concurrent executor calls it),
+\* "retryh" the first attempt fails retryably and GetHandler fails when the transaction is to be executed again
+Fails(t) == prog[t].fate \in {"fatal", "retryx", "nohandler", "retryh"}       \* fails the block when executed one by one
+ParFails(t) == Fails(t) \/ prog[t].fate = "noprep"                            \* fails the block in the concurrent executor
 \* first transaction at which sequential execution fails the block (K+1: none)
 FirstFail == IF \E t \in 1..disp : Fails(t) THEN CHOOSE t \in 1..disp : Fails(t) /\ \A u \in 1..(t-1) : ~Fails(u)
              ELSE K + 1
@@ -113,7 +122,9 @@ SeqRef == [reads |-> [t \in Tx |-> [i \in 1..Len(prog[t].ops) |->
                         IF prog[t].ops[i][1] = "r" THEN SeqVal(t, i - 1, prog[t].ops[i][2]) ELSE t]],
            final |-> [a \in Acc |-> SeqVal(K, Len(prog[K].ops), a)],
            result |-> IF FirstFail <= K THEN "err" ELSE "ok",
-           first |-> FirstFail]
+           presult |-> IF \E t \in Tx : ParFails(t) THEN "err" ELSE "ok",
+           first |-> FirstFail,
+           init |-> init]
 
 \* ---------------------------------------------------------------- guards (where the real code waits)
 BeginGuard(t) == IF wlock[t] \in {"W", "R"} THEN \A u \in 1..(t-1) : ph[u] = "committed"
@@ -134,12 +145,12 @@ EnsureBlocked == dpc = "ensure" /\ ~EnsureGuard
 \* ---------------------------------------------------------------- history
 \* (once the dispatcher has returned the outcome of the block is decided: nothing else is recorded)
 Can == result = "run" /\ (MaxOps = 0 \/ Len(hist) < MaxOps)
-Final(r) == IF MaxOps = 0 THEN r ELSE r @@ [seq |-> SeqRef]
+Final(r) == IF MaxOps = 0 THEN r ELSE r @@ [seq |-> SeqRef']
 Rec(op, t) == [op |-> op, t |-> t, i |-> 0, k |-> "", a |-> "", val |-> 0, out |-> "", prog |-> NoProg]
 Log(r) == hist' = IF MaxOps = 0 THEN <<r>>
                   ELSE Append(hist, r @@ [blk |-> Blocked', dblk |-> DispBlocked', eblk |-> EnsureBlocked', real |-> real', latch |-> latch'])
 
-Init == /\ prog = [t \in Tx |-> NoProg] /\ real = [a \in Acc |-> 0] /\ disp = 0 /\ dpc = "top"
+Init == /\ prog = [t \in Tx |-> NoProg] /\ init \in [Acc -> InitVals] /\ real = init /\ disp = 0 /\ dpc = "top"
         /\ las = [t \in Tx |-> [a \in Acc |-> NoLas]]
         /\ wlock = [t \in Tx |-> "N"] /\ wsnap = [t \in Tx |-> [a \in Acc |-> 0]]
         /\ wbase = [t \in Tx |-> [a \in Acc |-> -1]]
@@ -153,11 +164,11 @@ TopFail ==
   /\ Can /\ result = "run" /\ dpc = "top" /\ disp < K /\ (latch # 0 \/ cancelled)
   /\ result' = IF cancelled THEN "cancelled" ELSE "err"
   /\ UNCHANGED <<prog, real, disp, dpc, las, wlock, wsnap, wbase, sysdep, ph, pc, att, saved, lastAL, lastWL, roCache,
-                 latch, rcpt, cancelled>>
+                 latch, rcpt, cancelled, init>>
   /\ Log(Final(Rec("topfail", disp + 1)))
 Top(p) ==
   /\ Can /\ result = "run" /\ dpc = "top" /\ disp < K /\ latch = 0 /\ ~cancelled
-  /\ p \in Progs /\ (p.fate # "ok" => Failures < MaxFail)
+  /\ p \in Progs /\ (p.fate # "ok" => Failures < MaxFail) /\ p.fate \notin {"nohandler", "noprep"}
   /\ LET t == disp + 1 IN
      /\ disp' = t /\ dpc' = (IF p.ens THEN "ensure" ELSE "ready")
      /\ prog' = [prog EXCEPT ![t] = p] /\ ph' = [ph EXCEPT ![t] = "prepared"]
@@ -185,12 +196,21 @@ Top(p) ==
                /\ lastAL' = [a \in Acc |-> IF p.lock[a] = "W" THEN t
                                              ELSE IF p.world = "R" /\ ImplWR = "required" THEN 0 ELSE lastAL[a]]
                /\ saved' = [saved EXCEPT ![t] = real]
-     /\ UNCHANGED <<real, wsnap, pc, att, latch, rcpt, result, cancelled>>
+     /\ UNCHANGED <<real, wsnap, pc, att, latch, rcpt, result, cancelled, init>>
      /\ Log([Rec("top", t) EXCEPT !.prog = p])
 \* value of account a as seen through committed transaction d (d.GetAccountROState)
 ViewOf(d, a) == IF wlock[d] = "U" THEN wsnap[d][a]
                 ELSE IF wlock[d] = "R" /\ las[d][a].lock = "N" THEN wbase[d][a]
                 ELSE las[d][a].val
+
+\* ---- dispatcher, loop top: GetHandler or Prepare of the next transaction returns an error: the dispatcher returns it at once
+\*      (transactions in flight go on; nothing of this transaction was registered)
+TopRefuse(p) ==
+  /\ Can /\ result = "run" /\ dpc = "top" /\ disp < K /\ latch = 0 /\ ~cancelled
+  /\ p \in Progs /\ p.fate \in {"nohandler", "noprep"} /\ Failures < MaxFail
+  /\ prog' = [prog EXCEPT ![disp + 1] = p] /\ disp' = disp + 1 /\ result' = "err"
+  /\ UNCHANGED <<real, dpc, las, wlock, wsnap, wbase, sysdep, ph, pc, att, saved, lastAL, lastWL, roCache, latch, rcpt, cancelled, init>>
+  /\ Log(Final([Rec("toprefuse", disp + 1) EXCEPT !.prog = p]))
 
 \* ---- Prepare calls Ensure(): every locked account is resolved now, in the dispatcher
 Ensure ==
@@ -204,13 +224,13 @@ Ensure ==
      /\ saved' = [saved EXCEPT ![t] = [a \in Acc |->
            IF las[t][a].lock = "W" /\ las[t][a].dep # 0 THEN real[a] ELSE saved[t][a]]]
   /\ dpc' = "ready"
-  /\ UNCHANGED <<prog, real, disp, wlock, wsnap, wbase, sysdep, ph, pc, att, lastAL, lastWL, roCache, latch, rcpt, result, cancelled>>
+  /\ UNCHANGED <<prog, real, disp, wlock, wsnap, wbase, sysdep, ph, pc, att, lastAL, lastWL, roCache, latch, rcpt, result, cancelled, init>>
   /\ Log(Rec("ensure", disp))
 \* ---- dispatcher passes ec.Ready() and starts the goroutine of transaction disp
 Spawn ==
   /\ Can /\ result = "run" /\ dpc = "ready" /\ SlotFree
   /\ dpc' = "top" /\ ph' = [ph EXCEPT ![disp] = "spawned"]
-  /\ UNCHANGED <<prog, real, disp, las, wlock, wsnap, wbase, sysdep, pc, att, saved, lastAL, lastWL, roCache, latch, rcpt, result, cancelled>>
+  /\ UNCHANGED <<prog, real, disp, las, wlock, wsnap, wbase, sysdep, pc, att, saved, lastAL, lastWL, roCache, latch, rcpt, result, cancelled, init>>
   /\ Log(Rec("spawn", disp))
 
 
@@ -221,7 +241,7 @@ Begin(t) ==
   /\ saved' = IF wlock[t] = "W" THEN [saved EXCEPT ![t] = real] ELSE saved
   \* realizeBaseInLock of a world reader: base = parent.committed = real.GetSnapshot() now (unless it had a base already)
   /\ wbase' = IF wlock[t] = "R" /\ \E a \in Acc : wbase[t][a] = -1 THEN [wbase EXCEPT ![t] = real] ELSE wbase
-  /\ UNCHANGED <<prog, real, disp, dpc, las, wlock, wsnap, sysdep, att, lastAL, lastWL, roCache, latch, rcpt, result, cancelled>>
+  /\ UNCHANGED <<prog, real, disp, dpc, las, wlock, wsnap, sysdep, att, lastAL, lastWL, roCache, latch, rcpt, result, cancelled, init>>
   /\ Log(Rec("begin", t))
 
 \* ---- one program operation of transaction t (getAccountStateInLock + read / write)
@@ -238,13 +258,14 @@ Step(t) ==
         /\ saved' = IF wlock[t] # "W" /\ l.dep # 0 /\ l.lock = "W" THEN [saved EXCEPT ![t][a] = real[a]] ELSE saved
         /\ real' = IF o[1] = "w" THEN [real EXCEPT ![a] = t] ELSE real
         /\ pc' = [pc EXCEPT ![t] = @ + 1]
-        /\ UNCHANGED <<prog, disp, dpc, wlock, wsnap, wbase, sysdep, ph, att, lastAL, lastWL, roCache, latch, rcpt, result, cancelled>>
+        /\ UNCHANGED <<prog, disp, dpc, wlock, wsnap, wbase, sysdep, ph, att, lastAL, lastWL, roCache, latch, rcpt, result, cancelled, init>>
         /\ Log([Rec("step", t) EXCEPT !.i = pc[t], !.k = o[1], !.a = a, !.val = IF o[1] = "r" THEN seen ELSE t])
 
 \* ---- Execute (+ OnTransactionEnd) returns
 Outcome(t) == LET f == prog[t].fate IN
   IF f = "ok" \/ (f = "retry1" /\ att[t] >= 1) THEN "ok"
   ELSE IF f = "fatal" THEN "fatal"
+  ELSE IF f = "retryh" THEN "retryh"
   ELSE IF att[t] >= RetryCount THEN "exhausted" ELSE "retry"
 EndExec(t) ==
   /\ Can /\ t \in Tx /\ ph[t] = "exec" /\ pc[t] = Len(prog[t].ops) + 1
@@ -257,11 +278,18 @@ EndExec(t) ==
                                  THEN saved[t][a] ELSE real[a]]
                            /\ att' = [att EXCEPT ![t] = @ + 1] /\ pc' = [pc EXCEPT ![t] = 1]
                            /\ UNCHANGED <<rcpt, ph, latch>>
+          [] out = "retryh" -> \* wvs.Reset, then GetHandler fails: executionContext.Report
+                           /\ real' = [a \in Acc |->
+                                 IF wlock[t] = "W" \/ (las[t][a].lock = "W" /\ las[t][a].kind = "real")
+                                 THEN saved[t][a] ELSE real[a]]
+                           /\ latch' = IF (IF Impl = "code" THEN latch # 0 ELSE latch = 0) THEN t ELSE latch
+                           /\ ph' = [ph EXCEPT ![t] = "done"]
+                           /\ UNCHANGED <<att, pc, rcpt>>
           [] OTHER -> \* executionContext.Report
                            /\ latch' = IF (IF Impl = "code" THEN latch # 0 ELSE latch = 0) THEN t ELSE latch
                            /\ ph' = [ph EXCEPT ![t] = "done"]
                            /\ UNCHANGED <<real, att, pc, rcpt>>
-     /\ UNCHANGED <<prog, disp, dpc, las, wlock, wsnap, wbase, sysdep, saved, lastAL, lastWL, roCache, result, cancelled>>
+     /\ UNCHANGED <<prog, disp, dpc, las, wlock, wsnap, wbase, sysdep, saved, lastAL, lastWL, roCache, result, cancelled, init>>
      /\ Log([Rec("end", t) EXCEPT !.out = out, !.i = att[t]])
 
 \* ---- wvs.Commit, ec.Done
@@ -274,7 +302,7 @@ Commit(t) ==
   /\ IF wlock[t] = "W" THEN /\ wlock' = [wlock EXCEPT ![t] = "U"] /\ wsnap' = [wsnap EXCEPT ![t] = real]
      ELSE UNCHANGED <<wlock, wsnap>>
   /\ ph' = [ph EXCEPT ![t] = "committed"]
-  /\ UNCHANGED <<prog, real, disp, dpc, wbase, sysdep, pc, att, saved, lastAL, lastWL, roCache, latch, rcpt, result, cancelled>>
+  /\ UNCHANGED <<prog, real, disp, dpc, wbase, sysdep, pc, att, saved, lastAL, lastWL, roCache, latch, rcpt, result, cancelled, init>>
   /\ Log(Rec("commit", t))
 
 \* ---- dispatcher after the loop: Realize(last) waits for every commit, then return
@@ -282,7 +310,7 @@ Exit ==
   /\ Can /\ result = "run" /\ dpc = "top" /\ disp = K /\ \A t \in Tx : ph[t] = "committed"
   /\ result' = IF cancelled THEN "cancelled"
                ELSE IF Impl = "code" THEN "ok" ELSE (IF latch # 0 THEN "err" ELSE "ok")
-  /\ UNCHANGED <<prog, real, disp, dpc, las, wlock, wsnap, wbase, sysdep, ph, pc, att, saved, lastAL, lastWL, roCache, latch, rcpt, cancelled>>
+  /\ UNCHANGED <<prog, real, disp, dpc, las, wlock, wsnap, wbase, sysdep, ph, pc, att, saved, lastAL, lastWL, roCache, latch, rcpt, cancelled, init>>
   /\ Log(Final([Rec("exit", 0) EXCEPT !.out = result']))
 
 \* ---- the canceler is called
@@ -290,11 +318,12 @@ Cancel ==
   /\ Can /\ CancelOn /\ result = "run" /\ ~cancelled
   /\ cancelled' = TRUE
   /\ UNCHANGED <<prog, real, disp, dpc, las, wlock, wsnap, wbase, sysdep, ph, pc, att, saved, lastAL, lastWL, roCache,
-                 latch, rcpt, result>>
+                 latch, rcpt, result, init>>
   /\ Log(Rec("cancel", disp))
 
 Next == \/ TopFail
         \/ \E p \in Progs : Top(p)
+        \/ \E p \in Progs : TopRefuse(p)
         \/ Ensure
         \/ Spawn
         \/ \E t \in Tx : Begin(t)
@@ -318,9 +347,9 @@ ReadsAreSequential ==
 FinalEqualsSequential ==
   (result = "ok" /\ FirstFail = K + 1) => \A a \in Acc : real[a] = SeqVal(K, Len(prog[K].ops), a)
 \* C10: a block reported as executed has a receipt for every transaction, and no transaction failed
-NoSilentDrop == (result = "ok") => \A t \in Tx : rcpt[t] /\ ~Fails(t)
+NoSilentDrop == (result = "ok") => \A t \in Tx : rcpt[t] /\ ~ParFails(t)
 \* C10: and the other way round: a block without failing transaction is not reported as failed
-NoSpuriousFailure == (result = "err") => \E t \in 1..disp : Fails(t)
+NoSpuriousFailure == (result = "err") => \E t \in 1..disp : ParFails(t)
 \* C10: a cancelled transition never reports a (partial) success
 NoResultAfterCancel == cancelled => result \in {"run", "cancelled", "err"}
 \* the waits never deadlock: every execution ends
